@@ -285,6 +285,9 @@ def _generic_run(self, cspec, argvals):
             del ST.run_faults[slug]
 
         def _g():
+            if at is not None and not value:
+                ST.fired.append(['runfault', slug, 'gen_raise'])
+                raise RunFault('injected: generator raises')
             for i, x in enumerate(value):
                 if at is not None and i >= min(at, len(value) - 1):
                     ST.fired.append(['runfault', slug, 'gen_raise'])
@@ -679,6 +682,7 @@ class Proc:
         self.multis = {}
         self.tokens = {}
         self.keepalive = []
+        self.registries = {}
         self.classes = None
         self.renderer = None
         self.kind_of_slug = {c['slug']: c['kind'] for c in self.world['classes']}
@@ -713,7 +717,13 @@ class Proc:
         cfg = self.renderer.build(op['root'], op['render'])
         ST.active = True
         try:
-            chain = cfg.chain(parameter_mode=op.get('pmode', True))
+            if op.get('registry'):
+                # chains sharing task objects through an explicit registry (what MultiChain does internally)
+                from taskchain import Chain
+                reg = self.registries.setdefault(op['registry'], {})
+                chain = Chain(cfg, shared_tasks=reg, parameter_mode=op.get('pmode', True))
+            else:
+                chain = cfg.chain(parameter_mode=op.get('pmode', True))
         except Exception as e:
             return {'err': [type(e).__name__, str(e)[:300]]}
         self.chains[op['cid']] = chain
